@@ -26,6 +26,7 @@ def main():
     try:
         if a.replay:
             ctx.tier = "quick"
+            ctx.replay_mode = True
             mod.replay(ctx, a.replay)
         else:
             mod.run(ctx)
